@@ -67,6 +67,7 @@ func genScan(profile string, ending bool) func(seed uint64, r *rng.Rand) *Plan {
 		p.Client.ReadTimeoutMS = 30000
 		p.Sched = g.SwarmSched()
 		p.Scan = hb.ScanKnobs{Chunky: g.R.Chance(0.85), Partial: []float64{0, 0.3, 0.7}[g.R.Intn(3)], Heartbeat: []float64{0, 0.15}[g.R.Intn(2)], InPB: []float64{0, 0.3}[g.R.Intn(2)]}
+		p.Scan.ZeroID = rng.New(rng.Derive(seed, 606)).Chance(0.08)
 		nt := g.R.Range(1, 3)
 		for t := 0; t < nt; t++ {
 			var ops []Op
@@ -322,7 +323,7 @@ func (w *World) checkC14() []Violation {
 					if x.ScannerID != id {
 						continue
 					}
-					if x.Kind == "ScanOpen" {
+					if x.Kind == "ScanOpen" && x.Err == "" { // (an open that was refused allocated no scanner; its id field is 0, a legal id)
 						// The scanner learned the id if the caller got rows of that
 						// very response, or if no context ended - neither cancelled nor
 						// past its deadline - while the scan was in progress (a response
@@ -341,10 +342,11 @@ func (w *World) checkC14() []Violation {
 							}
 						}
 					}
-					if x.Kind == "ScanNext" || x.Kind == "ScanRenew" {
+					carried := x.ReqScan != nil && x.ReqScan.ScannerId != nil // (0 is a legal id)
+					if (x.Kind == "ScanNext" || x.Kind == "ScanRenew") && carried {
 						learned = true // the client used the id
 					}
-					if x.Kind == "ScanClose" && x.Server == sc.Server {
+					if x.Kind == "ScanClose" && x.Server == sc.Server && carried {
 						closeSent = true // a close for it reached the server that holds it
 					}
 				}
